@@ -1,0 +1,56 @@
+//go:build verif
+
+package http2
+
+import "sync/atomic"
+
+// Verification hooks (build tag verif). With the tag off every hook is an
+// empty inlinable function and verifOn is a false constant.
+
+const verifOn = true
+
+// VerifPoolFunc observes pool traffic. kind names the pool, acquire is true
+// right after an object was taken and false right before it is put back.
+// Returning true on a release withholds the object from the pool (always legal
+// for a sync.Pool); it is honoured where the call site can skip the Put.
+type VerifPoolFunc func(kind string, obj any, acquire bool) bool
+
+var verifPoolHook atomic.Pointer[VerifPoolFunc]
+
+// VerifSetPoolHook installs (or with nil removes) the pool observer.
+func VerifSetPoolHook(f VerifPoolFunc) {
+	if f == nil {
+		verifPoolHook.Store(nil)
+		return
+	}
+	verifPoolHook.Store(&f)
+}
+
+func verifPool(kind string, obj any, acquire bool) bool {
+	if h := verifPoolHook.Load(); h != nil {
+		return (*h)(kind, obj, acquire)
+	}
+	return false
+}
+
+// VerifPointFunc is called at named suspension points between critical
+// sections; the harness uses it to yield, sleep (virtual time) and to record
+// the order in which goroutines pass them.
+type VerifPointFunc func(site string)
+
+var verifPointHook atomic.Pointer[VerifPointFunc]
+
+// VerifSetPointHook installs (or with nil removes) the perturbation callback.
+func VerifSetPointHook(f VerifPointFunc) {
+	if f == nil {
+		verifPointHook.Store(nil)
+		return
+	}
+	verifPointHook.Store(&f)
+}
+
+func verifPoint(site string) {
+	if h := verifPointHook.Load(); h != nil {
+		(*h)(site)
+	}
+}
